@@ -550,7 +550,15 @@ class SCFG(Sized):
                             jt.pop(jt.index(s))
             else:
                 jt.append(new_name)
-            self.add_block(block.replace_jump_targets(jump_targets=tuple(jt)))
+            block = block.replace_jump_targets(jump_targets=tuple(jt))
+            if isinstance(block, RegionBlock):
+                # A region mirrors the targets of its exiting block, so the
+                # exiting block (recursively) must be re-targeted as well.
+                from numba_scfg.core.transformations import update_exiting
+
+                for s in successors:
+                    block = update_exiting(block, s, new_name)
+            self.add_block(block)
 
     def insert_SyntheticExit(
         self,
@@ -635,6 +643,7 @@ class SCFG(Sized):
         for name in predecessors:
             block = self.graph[name]
             jt = list(block.jump_targets)
+            renamed = []
             # Need to create synthetic assignments for each arc from a
             # predecessors to a successor and insert it between the predecessor
             # and the newly created block
@@ -656,12 +665,19 @@ class SCFG(Sized):
                 branch_variable_value += 1
                 # replace previous successor with synth_assign
                 jt[jt.index(s)] = synth_assign
+                renamed.append((s, synth_assign))
             # finally, replace the jump_targets
-            self.add_block(
-                self.graph.pop(name).replace_jump_targets(
-                    jump_targets=tuple(jt)
-                )
+            block = self.graph.pop(name).replace_jump_targets(
+                jump_targets=tuple(jt)
             )
+            if isinstance(block, RegionBlock):
+                # A region mirrors the targets of its exiting block, so the
+                # exiting block (recursively) must be re-targeted as well.
+                from numba_scfg.core.transformations import update_exiting
+
+                for s, synth_assign in renamed:
+                    block = update_exiting(block, s, synth_assign)
+            self.add_block(block)
         # initialize new block, which will hold the branching table
         new_block = SyntheticHead(
             name=new_name,
